@@ -327,12 +327,15 @@ def run(ctx, report):
             me3 = _Obj3('self')
             me3.arg = [dict(x) for x in ops]
             loc = {'self': me3, 'mnemo': [a]}
+            me3.prefix = []
+            # the whole block in order (a statement that reads what this model object lacks is skipped): locals a later statement uses are bound
             for st_ in blk[0].body:
-                if any(isinstance(x, ast.Assign) and u(x.targets[0]) == 'mnemo[0]' for x in ast.walk(st_)):
-                    try:
-                        _Ev3(scope3).exec_stmts([st_], loc)
-                    except (_NC3, _PR3):
-                        pass
+                try:
+                    _Ev3(scope3).exec_stmts([st_], loc)
+                except (_NC3, _PR3):
+                    pass
+                if not (isinstance(loc.get('mnemo'), list) and loc['mnemo'] and isinstance(loc['mnemo'][0], str)):
+                    loc['mnemo'] = [a]
             got[label] = loc['mnemo'][0]
         # assembler: the statements of asm_candidates that assign name
         from ..consteval import class_obj as _co3, Native as _Nat3
@@ -447,26 +450,8 @@ def run(ctx, report):
                              where(arch, st), witness="asm('push WORD PTR [eax]') == [66 50]")
 
     # segment overrides: printed by the decoder for every prefixed memory operand, so the assembler side must keep them
-    seg_ifs = [n for n in walk_no_nested(ac) if isinstance(n, ast.If) and u(n.test).replace(' ', '') == 'x86_afs.segmina']
-    if not seg_ifs:
-        raise AnalysisError('asm_candidates: handling of the segm key of operands not found')
-    for n in seg_ifs:
-        # must-pass-through: every path through the body reaches prefix.append(prefix_seg[..]) and del a[segm]
-        def reaches(stmts):
-            for st in stmts:
-                if isinstance(st, ast.If):
-                    if any(isinstance(x, ast.Continue) for x in ast.walk(st)):
-                        return False, st
-                if any(isinstance(x, ast.Call) and u(x.func) == 'prefix.append' and 'prefix_seg' in u(x) for x in ast.walk(st)):
-                    return True, st
-            return False, None
-        okp, where_ = reaches(n.body)
-        dels = any(isinstance(x, ast.Delete) and 'x86_afs.segm' in u(x) for st in n.body for x in ast.walk(st))
-        if okp and dels:
-            R3.ok('segm-prefix', sample='every operand with a segment override contributes its prefix byte and loses the segm key')
-        else:
-            R3.violation('segm-prefix', 'segm-prefix:skipped', 'asm_candidates skips the segment prefix on some path (%s): the segm key stays in the operand and no encoding matches'
-                         % (norm(where_)[:70] if where_ is not None else 'no prefix.append'), where(arch, n), witness="asm('inc DWORD PTR es:[edi]') == []")
+    from .c02 import size_vote_rule as _svr3
+    _svr3(ctx, R3, X, what='segm')
     ptrformula_rule(ctx, R3, X)
 
     R4 = report.rule('C03.D4', 'the operand renderer emits displacement, symbol and segment exactly once on every path', floor=6)
